@@ -8,3 +8,13 @@ LEVELS["C05"] = {
  "text": "Bounded symbolic verification of the real commitment code (newCommitment, match, setConfiguration, recalculate, uint64Slice sort): from an arbitrary commitment state one call keeps the commit index monotone and raises it only to an index >= startIndex held by a strict majority of the voters in force; non-voters/strangers never get a slot. Decided by z3 for all 64-bit indexes and all suffrage patterns for N<=4 (quick) / N<=5 (thorough) servers.",
  "note": "Trusted: go/ssa lowering, the gosym interpreter, z3; mutex ops are no-ops; sort.Sort is replaced by an insertion sort driven through the real Len/Less/Swap; cluster-level composition (DESIGN 3.4) is a written argument. Outside: store durability.",
 }
+LEVELS["C07"] = {
+ "ref": "4.7",
+ "text": "Bounded symbolic verification of the real membership code: nextConfiguration/checkConfiguration on an arbitrary valid configuration (N<=3 quick, N<=4 thorough; symbolic ids, addresses, suffrages) and an arbitrary request; z3 decides the one-voter-difference, >=1 voter, uniqueness, stale-prevIndex and caller-aliasing clauses for all values.",
+ "note": "Trusted: go/ssa, gosym (slice/append aliasing semantics), z3. fmt.Errorf is a stub. Outside: requests racing with elections.",
+}
+LEVELS["C19"] = {
+ "ref": "4.19",
+ "text": "Bounded symbolic verification of the real LogCache code against a model backend: an inductive step from an arbitrary invariant-satisfying (cache, backend) pair plus a bounded sequence from NewLogCache; every read through the cache must equal the direct backend read, every write must be forwarded unchanged; capacities 1..3(4), window of 3 indexes at an arbitrary 64-bit base, backend failures injected.",
+ "note": "Trusted: go/ssa, gosym, z3, the model backend (harness/m_stores.go). Assumes atomic backend failures and a window base that is a multiple of 12. Outside: capacities > 4, partial batch failure, caller mutating stored *Log.",
+}
